@@ -202,3 +202,49 @@ def is_name(node, name: str) -> bool:
 
 def is_attr_of(node, base: str, attr: str) -> bool:
     return isinstance(node, ast.Attribute) and node.attr == attr and is_name(node.value, base)
+
+
+# ----------------------------------------------------------------------- concrete region evaluation (A5)
+class _Replace(ast.NodeTransformer):
+    def __init__(self, mapping):
+        self.mapping = mapping
+
+    def visit(self, node):
+        if isinstance(node, ast.expr):
+            s = ast.unparse(node)
+            if s in self.mapping:
+                return ast.Constant(value=self.mapping[s])
+        return super().visit(node)
+
+
+def eval_concrete(ctx, node, mapping, mod):
+    """Evaluate an integer/boolean expression after replacing the sub-expressions listed in `mapping`
+    (source text -> int/None) by constants. Used to enumerate the regions of difference-bound guards:
+    the checker evaluates comparisons between integers, it never runs repository code."""
+    from .consteval import NotConst
+    n = _Replace(mapping).visit(clone(node))
+    try:
+        return True, ctx.ce.eval(n, mod, None, {})
+    except NotConst:
+        return False, None
+    except TypeError:
+        return False, None
+
+
+def project(body, names):
+    """Keep only the assignments to `names` and the if-structure around them."""
+    out = []
+    for st in body:
+        if isinstance(st, ast.Assign) and any(isinstance(t, ast.Name) and t.id in names for t in st.targets):
+            out.append(st)
+        elif isinstance(st, ast.AugAssign) and isinstance(st.target, ast.Name) and st.target.id in names:
+            out.append(st)
+        elif isinstance(st, ast.If):
+            b, o = project(st.body, names), project(st.orelse, names)
+            if b or o:
+                out.append(ast.If(test=st.test, body=b or [ast.Pass()], orelse=o, lineno=st.lineno, col_offset=0))
+        elif isinstance(st, (ast.For, ast.While, ast.Try, ast.With)):
+            for n in ast.walk(st):
+                if isinstance(n, ast.Name) and isinstance(n.ctx, ast.Store) and n.id in names:
+                    raise AnalysisError(f'line {st.lineno}: `{n.id}` is assigned inside a loop/try: region analysis not applicable')
+    return out
